@@ -36,6 +36,10 @@ impl<'a> Ctx<'a> {
     }
 }
 
+/// An accepted tree in which the prefix `xml` names another namespace cannot be written back (the
+/// serializer spells the XML namespace `xml:`): consequence of accepting the rebinding.
+const XML_REBOUND: &str = "not-representable-xml-prefix-rebound";
+
 fn mode_word(fragment: bool) -> &'static str {
     if fragment {
         "frag"
@@ -119,12 +123,12 @@ pub fn case_mode(ctx: &mut Ctx, xml: &str, fragment: bool, ex: &Expect) {
             }
             // namespace constraints the tokens show (whatever produced the input); recorded
             // defects of xot, kept apart from `problems` so that the other oracles still run
-            let (reserved, undeclared) = namespace_constraint_violations(&dump);
+            let (reserved, undeclared, xml_rebound) = namespace_constraint_violations(&dump);
             if reserved && ex.fault.is_none() {
                 ctx.fail("C03", "reserved-prefix-or-namespace-rebound-accepted", "accepted although a reserved prefix / namespace name is (re)bound (Namespaces in XML 1.0 section 3)", entry, xml);
             }
             if undeclared && ex.fault.is_none() {
-                ctx.fail("C03", "prefixed-undeclaration-accepted", "accepted although a prefix is declared with an empty namespace name (Namespaces in XML 1.0 section 2.2)", entry, xml);
+                ctx.fail("C03", "prefixed-undeclaration-accepted", "accepted although a prefix is declared with an empty namespace name (Namespaces in XML 1.0 section 3, NSC No Prefix Undeclaring)", entry, xml);
             }
             let mut problems = BTreeSet::new();
             let act = to_abstract(&vocab, &seen.tree, &mut problems);
@@ -162,7 +166,8 @@ pub fn case_mode(ctx: &mut Ctx, xml: &str, fragment: bool, ex: &Expect) {
                     Some(Err(e)) => {
                         let v = format!("{:?}", e);
                         let v = v.split('(').next().unwrap().to_string();
-                        ctx.fail("C03", &format!("accepted-tree-not-serialisable-{}", v), "to_string failed on a parsed tree", entry, xml)
+                        let sig = if xml_rebound { XML_REBOUND.to_string() } else { format!("accepted-tree-not-serialisable-{}", v) };
+                        ctx.fail("C03", &sig, "to_string failed on a parsed tree", entry, xml)
                     }
                     Some(Ok(s)) => {
                         let again = guarded(|| if fragment { xot.parse_fragment(&s) } else { xot.parse(&s) });
@@ -170,7 +175,9 @@ pub fn case_mode(ctx: &mut Ctx, xml: &str, fragment: bool, ex: &Expect) {
                             None => ctx.fail("C03", "reparse-panics", "reparsing the serialisation panicked", entry, xml),
                             Some(Err(e)) => {
                                 let raw_uri = vocab.namespaces.iter().any(|n| n.0.contains('"') || n.0.contains('<') || n.0.contains('&'));
-                                if raw_uri {
+                                if xml_rebound {
+                                    ctx.fail("C03", XML_REBOUND, "the serialisation of an accepted tree is rejected", entry, xml)
+                                } else if raw_uri {
                                     ctx.fail("C03", "serialisation-rejected-namespace-uri-written-raw", "the serialisation of an accepted tree is rejected", entry, xml)
                                 } else {
                                     ctx.fail("C03", &format!("serialisation-rejected-{}", err_variant(&e)), "the serialisation of an accepted tree is rejected", entry, xml)
@@ -180,7 +187,13 @@ pub fn case_mode(ctx: &mut Ctx, xml: &str, fragment: bool, ex: &Expect) {
                                 if !xot.deep_equal(doc, d2) {
                                     // an undecoded URI is escaped once more by the serializer
                                     let undecoded = vocab.namespaces.iter().any(|n| xot::verif_hooks::serialize_attribute(&n.0) != n.0);
-                                    let sig = if undecoded { "reparse-differs-namespace-uri-not-decoded" } else { "reparse-differs" };
+                                    let sig = if xml_rebound {
+                                        XML_REBOUND
+                                    } else if undecoded {
+                                        "reparse-differs-namespace-uri-not-decoded"
+                                    } else {
+                                        "reparse-differs"
+                                    };
                                     ctx.fail("C03", sig, "the serialisation reparses to a different tree", entry, xml);
                                 } else {
                                     ctx.sink.stat("reparse.equal");
@@ -210,6 +223,18 @@ pub fn case_mode(ctx: &mut Ctx, xml: &str, fragment: bool, ex: &Expect) {
                                 } else {
                                     c02.insert("xml-id-node-misses-id".into());
                                 }
+                            }
+                        }
+                    }
+                    if c02.contains("xml-id-not-fully-normalised") {
+                        // only the ids spelled with another prefix than `xml` are affected: another defect
+                        let mut bad = vec![];
+                        unnormalised_ids(&act, &mut bad);
+                        if !bad.is_empty() && bad.iter().all(|v| r.alias_ids.contains(v)) {
+                            c02.remove("xml-id-not-fully-normalised");
+                            c02.insert("xml-id-through-other-prefix-not-normalised".into());
+                            if c02.remove("xml-id-node-misses-partially-normalised-id") {
+                                c02.insert("xml-id-node-misses-id-written-through-other-prefix".into());
                             }
                         }
                     }
